@@ -17,11 +17,11 @@ CFG = dict(
               "call-site facts + differential run with fault injection against the Lean micro-step model + implementation-side oracle (final state after restart-and-resume = uninterrupted real run)",
     lean=["Ssv.Props.C12"],
     engines=[dict(harness="registry", driver="m_registry", args=["-mode", "c12"], case_delim="reset",
-                  n_quick=2, n_thorough=40, thorough_seeds=3, n_search=6, search_seeds=2)],
+                  n_quick=4, n_thorough=40, thorough_seeds=3, n_search=6, search_seeds=2)],
     rule="seeded generator of validator life cycles (operators incl. the own key, add own / foreign validators, decided history, metadata, liquidate, reactivate, exit, remove, re-add, "
          "fee recipients, malformed adds) cut into blocks; for every block every real database write (incl. the slashing-protection writes inside key-manager calls) is used once as a crash "
          "point and once as an error point, every key-manager call once as an error point; each fault run: blocks before, faulted block, new process on the surviving database, resume from "
-         "marker+1 to the end, compared with the uninterrupted real run and with the model; plus one in-process retry per block (measurement). A case class is distinct per "
+         "marker+1 to the end, compared with the uninterrupted real run and with the model; plus one in-process retry per block (measurement); every 8th case is a LARGE block (130-400 cheap events: fee recipients, ValidatorAdded attempts that only bump the nonce, unknown topics) with crash/error points drawn over all its writes (first ones, around every 128th, random, last, marker write, commit). A case class is distinct per "
          "(fault kind, write kind hit, previous write kind) and per (block status, outcome string, write trace)",
     trusted_base=["fault-injecting basedb.Database / Txn / KeyManager wrappers and the mapping of raw database keys to the model's write kinds",
                   "Badger: a transaction is atomic and durable at Commit; uncommitted transaction writes vanish with the process",
